@@ -107,8 +107,11 @@ Definition uniquify (fuel : nat) (x : xstate) (n : id) : XR :=
 (* ---- flatten ---- *)
 Definition is_cable (s : state) (e : id) : bool := is_kind s e KCable.
 
-(* flatten._bring_to_top *)
-Definition bring_to_top (x : xstate) (e : id) (add_to_name : str) (topd : id) : XR :=
+(* flatten._bring_to_top. [add_to_name] is the Python value handed in: Some [] for "", None when the
+   enclosing instance has no name (then [add_to_name + "/"] raises TypeError, after the element has
+   been taken out of its parent); with "" the statement is [e.name = e.name], which for an unnamed
+   element is the no-op [e.name = None] *)
+Definition bring_to_top (x : xstate) (e : id) (add_to_name : option str) (topd : id) : XR :=
   let s := st x in
   let cable := is_cable s e in
   let step1 : XR :=
@@ -125,11 +128,17 @@ Definition bring_to_top (x : xstate) (e : id) (add_to_name : str) (topd : id) : 
       | None => (x2, Some XAttr)
       | Some d =>
           liftR x2 (op_remove (st x2) r d e) (fun x3 =>
-          match get_str (st x3) e str_NAME with
+          let cur := get_str (st x3) e str_NAME in
+          let newname : option (option str) :=
+            match add_to_name with
+            | None => None
+            | Some [] => Some cur
+            | Some a => match cur with Some nm => Some (Some (a ++ str_slash ++ nm)) | None => None end
+            end in
+          match newname with
           | None => (x3, Some XAttr)
-          | Some nm =>
-              let newname := match add_to_name with [] => nm | _ => add_to_name ++ str_slash ++ nm end in
-              liftR x3 (op_set_name (st x3) e (Some newname)) (fun x4 =>
+          | Some nn =>
+              liftR x3 (op_set_name (st x3) e nn) (fun x4 =>
               liftR x4 (op_add (st x4) r topd e None) (fun x5 => (x5, None)))
           end)
       end
@@ -177,7 +186,7 @@ Fixpoint xfold (f : xstate -> id -> XR) (l : list id) (x : xstate) : XR :=
   | a :: l' => match f x a with (x1, None) => xfold f l' x1 | r => r end
   end.
 
-Fixpoint flat_loop (fuel : nat) (x : xstate) (topd : id) (queue : list (id * str)) (to_remove : list id)
+Fixpoint flat_loop (fuel : nat) (x : xstate) (topd : id) (queue : list (id * option str)) (to_remove : list id)
   : XR * list id :=
   match queue with
   | [] => ((x, None), to_remove)
@@ -193,18 +202,16 @@ Fixpoint flat_loop (fuel : nat) (x : xstate) (topd : id) (queue : list (id * str
               | Some d =>
                   if is_leaf_def (st x1) d then flat_loop f x1 topd rest to_remove
                   else
-                    match get_str (st x1) inst str_NAME with
-                    | None => ((x1, Some XAttr), to_remove)
-                    | Some iname =>
-                        let queue' := rest ++ map (fun c => (c, iname)) (kids (st x1) RChildren d) in
-                        match xfold (fun x c => bring_to_top x c iname topd) (kids (st x1) RCables d) x1 with
-                        | (x2, Some e) => ((x2, Some e), to_remove)
-                        | (x2, None) =>
-                            match xfold (fun x p => xfold (fun x i => redo_pin x inst i) (kids (st x) RPins p) x)
-                                        (kids (st x2) RPorts d) x2 with
-                            | (x3, Some e) => ((x3, Some e), to_remove)
-                            | (x3, None) => flat_loop f x3 topd queue' (to_remove ++ [inst])
-                            end
+                    (* name_queue.append(inst.name): None for an unnamed instance *)
+                    let iname := get_str (st x1) inst str_NAME in
+                    let queue' := rest ++ map (fun c => (c, iname)) (kids (st x1) RChildren d) in
+                    match xfold (fun x c => bring_to_top x c iname topd) (kids (st x1) RCables d) x1 with
+                    | (x2, Some e) => ((x2, Some e), to_remove)
+                    | (x2, None) =>
+                        match xfold (fun x p => xfold (fun x i => redo_pin x inst i) (kids (st x) RPins p) x)
+                                    (kids (st x2) RPorts d) x2 with
+                        | (x3, Some e) => ((x3, Some e), to_remove)
+                        | (x3, None) => flat_loop f x3 topd queue' (to_remove ++ [inst])
                         end
                     end
               end
@@ -219,7 +226,7 @@ Definition flatten (fuel : nat) (x : xstate) (n : id) : XR :=
       match iref (st x) t with
       | None => (x, Some XAttr)
       | Some topd =>
-          let queue := map (fun c => (c, [])) (kids (st x) RChildren topd) in
+          let queue := map (fun c => (c, Some [])) (kids (st x) RChildren topd) in
           match flat_loop fuel x topd queue [] with
           | ((x1, Some e), _) => (x1, Some e)
           | ((x1, None), to_remove) =>
